@@ -113,9 +113,20 @@ def t_conformance():
     record("Splitter conformance: expected commands falsified", got.get("cmds") == ["a", "&&", "b", ";", "'c;d'"], got.get("cmds") != ["a", "&&", "b", ";", "'c", ";", "d'"])
 
 
+def t_extras():
+    got = common.inproc_map("prompt", [{"id": 0, "line": "$a-${zz}$$ ", "shv": {"a": "V"}}], timeout=20)[0]
+    record("Prompt conformance: expected rendering falsified", got.get("prompt") == "V-$$ ", got.get("prompt") != "V-${zz}$$ ")
+    got = common.inproc_map("plan", [{"id": 0, "line": "a=1 b < f | c > g &"}], timeout=20)[0]
+    pl = (got.get("plans") or [{}])[0]
+    ok = pl.get("background") is True and pl.get("envs") == [["a", "1"]] and [c["tokens"] for c in pl.get("commands", [])] == [[["", "b"]], [["", "c"]]]
+    record("Plan conformance: expected plan falsified", ok, pl.get("background") is not False)
+    got = common.inproc_map("multiline", [{"id": 0, "line": "vpa a\\\n>> b"}], timeout=20)[0]
+    record("Multiline conformance: expected trimming falsified", got.get("trimmed") == "vpa ab", got.get("trimmed") != "vpa a\\\nb")
+
+
 def main():
     common.build_all()
-    for t in (t_cmdlist, t_fds, t_history, t_session, t_robust, t_conformance):
+    for t in (t_cmdlist, t_fds, t_history, t_session, t_robust, t_conformance, t_extras):
         try:
             t()
         except common.ToolError as e:
